@@ -1,4 +1,5 @@
 import Proofs.ReadPacket
+import Proofs.FrameRead
 /-!
 # C07 — the decoded packet does not depend on how the stream is fragmented
 
@@ -35,6 +36,32 @@ theorem C07_readFull (r₁ r₂ : Reader) (want : Nat) (hd : r₁.data = r₂.da
   have := h1.trans h2.symm
   simp only [Prod.mk.injEq] at this
   exact this
+
+/-- **a whole session**: any number of consecutive `ReadPacket` calls on two readers that deliver the
+same bytes and end the same way return the same sequence of packets and rejections and leave the
+same bytes — whatever the two delivery schedules are, valid frames or not, including what is read
+after a rejected frame. By induction on the number of calls: each call preserves "same remaining
+bytes, same end". -/
+theorem C07_session : ∀ (n : Nat) (r₁ r₂ : Reader), r₁.data = r₂.data → r₁.fail = r₂.fail →
+    (readAll n r₁).1 = (readAll n r₂).1 ∧ (readAll n r₁).2.data = (readAll n r₂).2.data := by
+  intro n
+  induction n with
+  | zero => intro r₁ r₂ hd _; exact ⟨rfl, hd⟩
+  | succ n ih =>
+    intro r₁ r₂ hd hf
+    have h := C07_schedule_irrelevant r₁ r₂ hd hf
+    have hf' : (readPacket r₁).2.fail = (readPacket r₂).2.fail := by
+      rw [(readPacket_pure r₁).2.1, (readPacket_pure r₂).2.1, hf]
+    have h2 := ih (readPacket r₁).2 (readPacket r₂).2 h.2 hf'
+    simp only [readAll]
+    exact ⟨by rw [h.1, h2.1], h2.2⟩
+
+/-- non-vacuity: PINGREQ, a malformed CONNACK and a PUBACK read one byte at a time with zero-length
+reads in between give what the contiguous stream gives -/
+example :
+    let d : Bytes := [0xc0, 0x00, 0x20, 0x05, 0x00, 0x00, 0x02, 0x7f, 0x00, 0x40, 0x02, 0x00, 0x01, 0xaa]
+    (readAll 3 { data := d, sched := [1, 0, 1, 1, 0, 0, 1, 1, 1, 1, 1, 1, 1, 1, 1, 1, 1, 1] }).1
+      = (readAll 3 (Reader.contig d)).1 := by decide
 
 /-- non-vacuity: a PUBLISH delivered one byte at a time with zero-length reads in between and
 the last byte together with io.EOF decodes like the contiguous frame -/
